@@ -97,6 +97,85 @@ func runC12(c *Ctx) {
 		c.check(global == "", "C12.R2", funcKey(p, fd)+"|receiver-state-only", c.pos(fd.Pos()), "touches only fields of its receiver",
 			"registry method "+fd.Name.Name+" uses the package-level variable "+global+": contexts would share `already rendered` state")
 	}
+	// forwarding accessors: a method of the context value whose whole body hands `<constant prefix> + parameter` (or the
+	// parameter) to a registry method found above — `return v.seen(scriptKeyPrefix + s)` / `v.markSeen(classKeyPrefix + s)`.
+	// It is a registry method of its own, for the key space its prefix selects; the method it forwards to is then plumbing.
+	forwarders := map[types.Object]bool{}
+	for round := 0; round < 2; round++ {
+		for _, fd := range allFuncDecls(p) {
+			if fd.Recv == nil || fd.Body == nil || recvTypeName(fd.Recv.List[0].Type) != ctxType || len(fd.Body.List) != 1 || forwarders[info.Defs[fd.Name]] {
+				continue
+			}
+			known := false
+			for _, m := range methods {
+				if types.Object(m.obj) == info.Defs[fd.Name] {
+					known = true
+				}
+			}
+			if known || len(fd.Recv.List[0].Names) != 1 {
+				continue
+			}
+			var call *ast.CallExpr
+			switch st := fd.Body.List[0].(type) {
+			case *ast.ReturnStmt:
+				if len(st.Results) == 1 {
+					call, _ = ast.Unparen(st.Results[0]).(*ast.CallExpr)
+				}
+			case *ast.ExprStmt:
+				call, _ = ast.Unparen(st.X).(*ast.CallExpr)
+			}
+			if call == nil || len(call.Args) != 1 {
+				continue
+			}
+			se, ok := ast.Unparen(call.Fun).(*ast.SelectorExpr)
+			if !ok {
+				continue
+			}
+			if rid, ok := ast.Unparen(se.X).(*ast.Ident); !ok || info.ObjectOf(rid) != info.Defs[fd.Recv.List[0].Names[0]] {
+				continue
+			}
+			var target *regMethod
+			for i := range methods {
+				if types.Object(methods[i].obj) == info.ObjectOf(se.Sel) && methods[i].pref == "" {
+					target = &methods[i]
+				}
+			}
+			if target == nil {
+				continue
+			}
+			pref := ""
+			arg := ast.Unparen(call.Args[0])
+			if be, ok := arg.(*ast.BinaryExpr); ok && be.Op == token.ADD {
+				if sv, ok := constString(info, be.X); ok {
+					pref = sv
+					arg = ast.Unparen(be.Y)
+				}
+			}
+			aid, ok := arg.(*ast.Ident)
+			if !ok {
+				continue
+			}
+			isParam := false
+			for _, prm := range fd.Type.Params.List {
+				for _, nm := range prm.Names {
+					if info.Defs[nm] == info.ObjectOf(aid) {
+						isParam = true
+					}
+				}
+			}
+			if !isParam {
+				continue
+			}
+			rm := regMethod{fd: fd, obj: info.Defs[fd.Name].(*types.Func), field: target.field, pref: pref, query: target.query, writes: target.writes}
+			if rm.query {
+				if fd.Type.Results == nil || len(fd.Type.Results.List) != 1 {
+					continue
+				}
+			}
+			forwarders[info.Defs[fd.Name]] = true
+			methods = append(methods, rm)
+		}
+	}
 	pair := func(q regMethod) *regMethod {
 		for i := range methods {
 			m := &methods[i]
@@ -113,6 +192,9 @@ func runC12(c *Ctx) {
 	nq := 0
 	collectors := map[types.Object]bool{} // functions that put not-yet-rendered items on a list instead of writing them
 	for _, b := range funcBodies(p) {
+		if b.Decl != nil && forwarders[info.Defs[b.Decl.Name]] {
+			continue // the forwarded call is the accessor's own answer, not a use of it
+		}
 		directNodes(b.Body, func(n ast.Node) bool {
 			call, ok := n.(*ast.CallExpr)
 			if !ok {
@@ -420,10 +502,50 @@ func runC12(c *Ctx) {
 			if !mentions {
 				return true
 			}
-			body := nodeText(c.fset, ts)
-			if strings.Contains(body, ".ClassName()") {
+			// what the switch does with the classes: asks for their ClassName(), or reads the Class field (the CSS rule)
+			// of a component class — in its cases, or in a function of the package that a case hands the value to
+			var uses func(root ast.Node, depth int, seen map[types.Object]bool) (name, rule bool)
+			uses = func(root ast.Node, depth int, seen map[types.Object]bool) (name, rule bool) {
+				ast.Inspect(root, func(m ast.Node) bool {
+					switch x := m.(type) {
+					case *ast.SelectorExpr:
+						if sel, ok := info.Selections[x]; ok {
+							if sel.Kind() == types.MethodVal && x.Sel.Name == "ClassName" {
+								name = true
+							}
+							if sel.Kind() == types.FieldVal && x.Sel.Name == "Class" && strings.HasSuffix(strings.TrimPrefix(sel.Recv().String(), "*"), ".ComponentCSSClass") {
+								rule = true
+							}
+						}
+					case *ast.CallExpr:
+						if fn := calleeOf(info, x); fn != nil && fn.Pkg() == p.Types && depth < 2 && !seen[fn] && types.Object(fn) != info.Defs[fd.Name] {
+							seen[fn] = true
+							for _, cfd := range allFuncDecls(p) {
+								if info.Defs[cfd.Name] == types.Object(fn) && cfd.Body != nil {
+									// (only helpers that have no type switch of their own: that would be another container switch)
+									own := false
+									ast.Inspect(cfd.Body, func(q ast.Node) bool {
+										if _, isTS := q.(*ast.TypeSwitchStmt); isTS {
+											own = true
+										}
+										return !own
+									})
+									if !own {
+										n2, r2 := uses(cfd.Body, depth+1, seen)
+										name, rule = name || n2, rule || r2
+									}
+								}
+							}
+						}
+					}
+					return true
+				})
+				return
+			}
+			usesName, usesRule := uses(ts, 0, map[types.Object]bool{})
+			if usesName {
 				nameSw = si
-			} else if strings.Contains(body, ".Class)") || strings.Contains(body, ".Class") {
+			} else if usesRule {
 				ruleSw = si
 			}
 			return true
